@@ -160,8 +160,13 @@ def ensure(unit):
     fcntl.flock(lockf, fcntl.LOCK_EX)
     try:
         if os.path.isfile(os.path.join(d, "DONE")):
+            try:
+                os.utime(d, None)      # mark the generation as in use (eviction below goes by last use)
+            except OSError:
+                pass
             return d
-        # drop stale generations of this unit: keep the 5 most recent ones (concurrent runs on other trees may be using them)
+        # drop stale generations of this unit: keep the 8 most recently used ones, and never one used in the last two hours
+        # (concurrent runs on other trees may be reading them)
         gens = []
         for old in os.listdir(os.path.join(WORK, "facts")):
             if old.startswith(unit + "-") and old != unit + "-" + key:
@@ -171,8 +176,8 @@ def ensure(unit):
                 except OSError:
                     pass
         gens.sort(reverse=True)
-        for mt, pth in gens[5:]:
-            if time.time() - mt > 1800:
+        for mt, pth in gens[8:]:
+            if time.time() - mt > 7200:
                 shutil.rmtree(pth, ignore_errors=True)
         shutil.rmtree(d, ignore_errors=True)
         os.makedirs(d)
@@ -296,10 +301,29 @@ class FactSet:
 
 
 def load(*units):
-    fs = FactSet()
-    for u in units:
-        fs.add_unit(u)
-    return fs
+    for attempt in (0, 1):
+        fs = FactSet()
+        try:
+            for u in units:
+                fs.add_unit(u)
+            return fs
+        except FileNotFoundError:
+            # a generation vanished while being read (evicted by a concurrent run): rebuild once
+            if attempt:
+                raise
+            for u in units:
+                d = os.path.join(WORK, "facts", u + "-" + tree_key(u))
+                lockf = open(os.path.join(WORK, "facts", ".lock-" + u), "w")
+                fcntl.flock(lockf, fcntl.LOCK_EX)
+                try:
+                    names = os.listdir(d) if os.path.isdir(d) else []
+                    want = [n for n in names if n.endswith(".json")]
+                    if not names or not os.path.isfile(os.path.join(d, "DONE")) or not want:
+                        shutil.rmtree(d, ignore_errors=True)
+                finally:
+                    fcntl.flock(lockf, fcntl.LOCK_UN)
+                    lockf.close()
+            time.sleep(1)
 
 
 if __name__ == "__main__":
